@@ -304,7 +304,7 @@ fn run_c31(ctx: &mut Ctx, rep: &mut Report) {
 
 pub const C29: Check = Check {
     id: "C29",
-    level: "exhaustive_bounded",
+    level: "fault_enumeration",
     rule: "full product fallback policy {never,stale,new} x RRDP outcome {updated(snapshot), updated(delta), not-modified, failed with \
            current copy, failed with expired copy (virtual clock moved past rrdp-fallback-time), failed with no copy} x RRDP enabled/disabled x rsync \
            enabled/disabled x child CA with/without rpkiNotify. The child's publication point exists in three versions with different \
